@@ -296,6 +296,38 @@ def add_url_sources(rng, model, p=0.6):
         model["features"] = sorted(set(model["features"]) | {"urlscm"})
     return n
 
+def add_tool_remap(rng, model):
+    """Opt-in shape (C03, C04): a recipe that only *hands on* a tool under another name
+    (`depends: [{name: x, tools: {cc: hostcc}}]`) and is reached under two providers of that tool."""
+    def leaf():
+        return _leaf(rng)
+    for n in ("tca", "tcb", "rmid", "rleaf", "wa", "wb"):
+        if n in model["recipes"]:
+            return False
+    tca, tcb = leaf(), leaf()
+    tca["provideTools"] = {"hostcc": {"path": ".", "libs": []}}
+    tcb["provideTools"] = {"hostcc": {"path": ".", "libs": []}}
+    rleaf = leaf(); rleaf["buildTools"] = ["cc"]; rleaf["keepTools"] = True
+    if rng.random() < 0.5:
+        rleaf["packageTools"] = ["cc"]
+    rmid = leaf(); rmid["depends"] = [{"name": "rleaf", "use": ["result", "deps"], "tools": {"cc": "hostcc"}}]; rmid["keepTools"] = True
+    if rng.random() < 0.4:
+        rmid["build"] = False
+    wa, wb = leaf(), leaf()
+    wa["depends"] = [{"name": "tca", "use": ["tools"], "forward": True}, {"name": "rmid", "use": ["result", "deps"]}]
+    wb["depends"] = [{"name": "tcb", "use": ["tools"], "forward": True}, {"name": "rmid", "use": ["result", "deps"]}]
+    wa["keepTools"] = wb["keepTools"] = True
+    names = ["wa", "wb"]
+    rng.shuffle(names)
+    for n, r in (("wa", wa), ("wb", wb), ("rmid", rmid), ("rleaf", rleaf), ("tca", tca), ("tcb", tcb)):
+        model["recipes"][n] = r
+    model["order"] = model["order"] + [names[0], names[1], "rmid", "rleaf", "tca", "tcb"]
+    root = model["recipes"]["root"]
+    for n in names:
+        root["depends"].insert(rng.randint(0, len(root["depends"])), {"name": n, "use": ["result", "deps"]})
+    model["features"] = sorted(set(model["features"]) | {"toolremap"})
+    return True
+
 def closure(model, start="root"):
     """Recipes reachable from `start` over `depends` (conditions ignored)."""
     seen, todo = set(), [start]
@@ -377,7 +409,7 @@ def _yaml_recipe(name, r, model):
     if r["depends"]:
         deps = []
         for e in r["depends"]:
-            if e["use"] == ["result", "deps"] and not e.get("forward") and not e.get("environment") and not e.get("if"):
+            if e["use"] == ["result", "deps"] and not e.get("forward") and not e.get("environment") and not e.get("if") and not e.get("tools"):
                 deps.append(e["name"])
             else:
                 x = {"name": e["name"], "use": list(e["use"])}
@@ -387,6 +419,8 @@ def _yaml_recipe(name, r, model):
                     x["environment"] = dict(e["environment"])
                 if e.get("if"):
                     x["if"] = e["if"]
+                if e.get("tools"):
+                    x["tools"] = dict(e["tools"])
                 deps.append(x)
         d["depends"] = deps
     if r["src"] == "import":
@@ -754,6 +788,8 @@ def _visible_tools(m, name, memo=None):
 def _fix_tools(m):
     """Drop tool usages that are not satisfiable any more."""
     for name, r in m["recipes"].items():
+        if r.get("keepTools"):
+            continue
         vis = _visible_tools(m, name)
         r["buildTools"] = [t for t in r["buildTools"] if t in vis]
         r["packageTools"] = [t for t in r["packageTools"] if t in vis]
